@@ -23,7 +23,11 @@ def _load(mods):
             importlib.reload(sys.modules[m])
         else:
             importlib.import_module(m)
-    return list(C.REGISTRY), list(C.LEMMAS)
+    # only what the listed modules define themselves: a contract module may import helpers from another contract module,
+    # which registers that module's contracts as a side effect (and differently often in the parent and in a worker)
+    keep = set(mods)
+    return ([c for c in C.REGISTRY if c.ns.get("__name__") in keep],
+            [l for l in C.LEMMAS if (l.ns or {}).get("__name__") in keep or l.ns is None])
 
 
 def _worker_init(mods):
@@ -72,6 +76,8 @@ def _run_contract_task(task):
     signal.setitimer(signal.ITIMER_REAL, budget, 1.0)
     try:
         return _run_contract_task_inner(task)
+    except Exception as e:   # anything the inner function let through: report it with its trace instead of killing the worker
+        return dict(idx=idx, ok=False, error=f"{type(e).__name__}: {e}", tb=traceback.format_exc(), secs=time.time() - t0)
     except _TaskTimeout:
         signal.signal(signal.SIGALRM, signal.SIG_IGN)
         signal.setitimer(signal.ITIMER_REAL, 0)
@@ -94,7 +100,7 @@ def _run_contract_task_inner(task):
         v = _get_verifier()
         res, info = v.run_contract(c, scenario_filter=set(names) if names is not None else None)
         fv = v.target_func(c)
-        cross = _crosscheck(c, names if names is not None else [n for n, _ in c.scenarios], res)
+        cross = _crosscheck(c, names if names is not None else [n for n, _ in c.scenarios], res, info.get("symbols", {}))
         return dict(idx=idx, ok=True, results=[_res_to_dict(r) for r in res], crosscheck=cross,
                     info=dict(paths=info["paths"], infeasible=info["infeasible"], exits=info["exits"],
                               assumed=sorted(info["assumed"]), unsupported=info["unsupported"],
@@ -155,7 +161,54 @@ def _native_in_child(c, sname, vals):
         return None
 
 
-def _crosscheck(c, snames, res):
+_PREIMPORTED = [False]
+
+
+def _preimport_native():
+    """the real package (and what it imports) is loaded once in the worker, so that the forked children do not each pay for it"""
+    if not _PREIMPORTED[0]:
+        _PREIMPORTED[0] = True
+        try:
+            import scinumtools, scinumtools.units, scinumtools.solver, scinumtools.materials, scinumtools.dip, scinumtools.dip.config  # noqa
+        except Exception:
+            pass
+
+
+def _kinds_in_child(builder):
+    """names and kinds of a scenario's input symbols, found by a dry native run of the builder in a forked child (the
+    builder runs real code, which may change process-wide tables)"""
+    import pickle
+    from .builders import NativeBuilder, AssumptionFailed
+    r, w = os.pipe()
+    pid = os.fork()
+    if pid == 0:
+        try:
+            os.close(r)
+            d = None
+            try:
+                b = NativeBuilder({})
+                try:
+                    builder(b)
+                except AssumptionFailed:
+                    pass
+                d = dict(b.names)
+            except BaseException:
+                d = None
+            with os.fdopen(w, "wb") as f:
+                pickle.dump(d, f)
+        finally:
+            os._exit(0)
+    os.close(w)
+    with os.fdopen(r, "rb") as f:
+        data = f.read()
+    os.waitpid(pid, 0)
+    try:
+        return pickle.loads(data) if data else None
+    except Exception:
+        return None
+
+
+def _crosscheck(c, snames, res, symbols):
     """CPython cross-check of the proof: the real function is run on sampled inputs that satisfy the precondition and the
     same clauses are evaluated natively; a clause that was proved on every path but fails natively is a disagreement
     (engine defect, or float rounding where the proof is over the reals)"""
@@ -164,6 +217,7 @@ def _crosscheck(c, snames, res):
         return dict(evaluations=0, disagreements=[])
     from .native import run_native
     from .builders import NativeBuilder, AssumptionFailed
+    _preimport_native()
     proved = {}
     for r in res:
         proved[r.name] = proved.get(r.name, True) and r.status == "proved"
@@ -174,14 +228,10 @@ def _crosscheck(c, snames, res):
         if time.time() - t0 > 60:
             break
         builder = dict(c.scenarios)[sname]
-        try:
-            b = NativeBuilder({})
-            try:
-                builder(b)
-            except AssumptionFailed:
-                pass
-            kinds = dict(b.names)
-        except Exception:
+        kinds = symbols.get(sname)
+        if kinds is None:
+            kinds = _kinds_in_child(builder)   # no symbolic path got as far as building the pre-state
+        if kinds is None:
             continue
         done = 0
         for attempt in range(per * 6):
